@@ -911,6 +911,11 @@ class Process(StateMachine, persistence.Savable, metaclass=ProcessStateMachineMe
             msg_txt = msg[MESSAGE_TEXT_KEY] or ''
 
         self.set_status(msg_txt)
+
+        # The future may already be done: cancelling it is a way of requesting the kill (see ``init``).  Replace it, as
+        # ``on_except`` does, so that the outcome can be reported.
+        if self.future().done():
+            self._future = persistence.SavableFuture(loop=self._loop)
         self.future().set_exception(exceptions.KilledError(msg_txt))
 
     @super_check
